@@ -137,6 +137,13 @@ Proof.
   destruct (negb (lg_eqb cc' cc)); reflexivity.
 Qed.
 
+Lemma lg_eqb_sym a b : lg_eqb a b = lg_eqb b a.
+Proof.
+  destruct (lg_eqb a b) eqn:H1; destruct (lg_eqb b a) eqn:H2; try reflexivity.
+  - apply lg_eqb_spec in H1. subst. rewrite lg_eqb_refl in H2. discriminate.
+  - apply lg_eqb_spec in H2. subst. rewrite lg_eqb_refl in H1. discriminate.
+Qed.
+
 Lemma mkLang_eta l : mkLang (l_lang l) (l_terr l) (l_enc l) (l_mod l) = l.
 Proof. destruct l; reflexivity. Qed.
 
@@ -152,7 +159,7 @@ Lemma src_remove_nonlinguistic_modifier_eq E l :
 Proof.
   unfold src_remove_nonlinguistic_modifier, remove_nonlinguistic_modifier.
   destruct l as [ll cc en [md|]]; cbn [l_lang l_terr l_enc l_mod opt_eqb]; [|reflexivity].
-  change [101; 117; 114; 111] with s_euro. destruct (lg_eqb md s_euro); reflexivity.
+  change [101; 117; 114; 111] with s_euro. rewrite ?(lg_eqb_sym s_euro md). destruct (lg_eqb md s_euro); reflexivity.
 Qed.
 
 (* ---------- get_language_for_name ---------- *)
@@ -198,13 +205,6 @@ Proof.
   intros Hb. induction subs as [|s r IH]; intros rs; [reflexivity|].
   cbn [lfor found_codes]. rewrite Hb. cbn [lbind]. rewrite IH.
   destruct (lg_lookup (cfg_names cfg) (lg_strip s)); reflexivity.
-Qed.
-
-Lemma lg_eqb_sym a b : lg_eqb a b = lg_eqb b a.
-Proof.
-  destruct (lg_eqb a b) eqn:H1; destruct (lg_eqb b a) eqn:H2; try reflexivity.
-  - apply lg_eqb_spec in H1. subst. rewrite lg_eqb_refl in H2. discriminate.
-  - apply lg_eqb_spec in H2. subst. rewrite lg_eqb_refl in H1. discriminate.
 Qed.
 
 (* adding to a set keeps what is there, in place *)
